@@ -11,6 +11,8 @@ Definition event_z (e : event) : Z :=
   | EvTCPUp => Gen.hsms.evTCPUp | EvSelectAccepted => Gen.hsms.evSelectAccepted
   | EvSelectLost => Gen.hsms.evSelectLost | EvDisconnect => Gen.hsms.evDisconnect
   | EvClose => Gen.hsms.evClose | EvT7 => Gen.hsms.evT7Timeout
+  | EvUpC => Gen.hsms.evTCPUpCommitted | EvSelAccC => Gen.hsms.evSelectAcceptedCommitted
+  | EvSelLostC => Gen.hsms.evSelectLostCommitted
   end.
 
 Lemma bridge_transition c e :
